@@ -235,9 +235,14 @@ void add_type(Node *node) {
     return;
   case ND_BITNOT:
   case ND_SHL:
-  case ND_SHR:
-    node->ty = node->lhs->ty;
+  case ND_SHR: {
+    // The integer promotions are performed on the (left) operand and
+    // the result has the promoted type.
+    Type *ty = get_common_type(ty_int, node->lhs->ty);
+    node->lhs = new_cast(node->lhs, ty);
+    node->ty = ty;
     return;
+  }
   case ND_VAR:
   case ND_VLA_PTR:
     node->ty = node->var->ty;
